@@ -150,7 +150,9 @@ Record Inv (n : nat) (avg : Q) (p prob : vec) (alias small large : list nat) : P
   inv_p0 : forall j, (j < n)%nat -> 0 <= nthq prob j;
   inv_fin : forall j, (j < n)%nat -> ~ In j (small ++ large) -> nthq prob j <= avg /\ (nth j alias O < n)%nat;
   inv_acct : forall i, (i < n)%nat -> acct n avg prob alias (small ++ large) i == nthq p i;
-  inv_tot : sumn n (fun j => if memb j (small ++ large) then nthq prob j - avg else 0) == 0
+  inv_tot : sumn n (fun j => if memb j (small ++ large) then nthq prob j - avg else 0) == qsum p - 1;
+  inv_keep : forall j, (j < n)%nat -> nthq p j < avg -> nthq prob j == nthq p j;
+  inv_lgp : forall j, In j large -> avg <= nthq p j
 }.
 
 (* one pairing step *)
@@ -162,7 +164,7 @@ Lemma inv_step : forall n avg p prob alias s small l large,
   Inv n avg p (upd prob l pl) (upd alias s l) small' large'.
 Proof.
   intros n avg p prob alias s small l large I pl small' large' Hbr.
-  destruct I as [Hlp Hla Hnd Hlt Hsm Hlg Hp0 Hfin Hacct Htot].
+  destruct I as [Hlp Hla Hnd Hlt Hsm Hlg Hp0 Hfin Hacct Htot Hkeep Hlgp].
   set (W := (s :: small) ++ l :: large) in *.
   assert (HsW : In s W) by (left; reflexivity).
   assert (HlW : In l W) by (unfold W; apply in_or_app; right; left; reflexivity).
@@ -252,6 +254,11 @@ Proof.
       - unfold g, h, f. rewrite Hml, HmlW, Hpl_eq.
         assert (E : (l =? s)%nat = false) by (apply Nat.eqb_neq; congruence). rewrite E. lra. }
     rewrite E2, E1. unfold pl. lra.
+  - (* entries below average in the input are never modified (only large entries are) *)
+    intros j Hj Hlow. destruct (Nat.eq_dec j l) as [->|Hjl].
+    + pose proof (Hlgp l (or_introl eq_refl)). lra.
+    + rewrite (Hpo j Hjl). apply Hkeep; assumption.
+  - intros j Hj. apply Hlgp. destruct Hbr as [[_ [_ ->]]|[_ [_ ->]]]; [right; exact Hj| exact Hj].
 Qed.
 
 (* the pairing loop keeps the invariant and, with fuel for every worklist entry, stops with an
@@ -342,12 +349,12 @@ Proof.
              (assert (Hin : In j (small ++ large)) by (apply in_app_iff; tauto); apply Hb in Hin; lia).
 Qed.
 
-Lemma inv_init : forall p, p <> [] -> is_dist p ->
+Lemma inv_init : forall p, p <> [] -> nonneg p ->
   let n := length p in let avg := 1 / qn n in
   let '(small, large) := vose_split p avg 0 [] [] in
   Inv n avg p p (repeat O n) small large /\ (length small + length large <= n)%nat.
 Proof.
-  intros p Hne [Hnn Hsum] n avg.
+  intros p Hne Hnn n avg.
   pose proof (split_spec p p avg 0 [] [] eq_refl) as H.
   destruct (vose_split p avg 0 [] []) as [small large].
   destruct H as [H1 [H2 [H3 H4]]].
@@ -373,7 +380,9 @@ Proof.
     + rewrite (sumn_ext n _ (fun j => nthq p j + (- avg))) by (intros j Hj; rewrite (Hmem j Hj); lra).
       rewrite sumn_add.
       pose proof (sumn_nthq p) as E1. fold n in E1. pose proof (sumn_const n (- avg)) as E2.
-      rewrite E1, E2, Hsum. unfold avg. field. lra.
+      rewrite E1, E2. unfold avg. field. lra.
+    + intros j Hj Hlow. reflexivity.
+    + intros j Hj. destruct (H3 j Hj) as [[]|H]; exact H.
   - assert (length (small ++ large) <= n)%nat; [| rewrite app_length in H; exact H].
     apply (NoDup_incl_length (l' := seq 0 n)) in Hnd; [rewrite seq_length in Hnd; exact Hnd|].
     intros j Hj. apply in_seq. apply Hall in Hj. lia.
@@ -418,15 +427,21 @@ Proof.
   exact (map_nth (fun q => q * c) l 0 j).
 Qed.
 
-(* ------------------------------------------------------------------ the theorem *)
-Lemma alias_mass_lemma : forall p, p <> [] -> is_dist p ->
+(* ------------------------------------------------------------------ the theorems *)
+(* Master statement, for every non-negative vector (whatever its sum): the mass of index i is
+   p_i + e_i, where the excess e_i is bounded by |sum p - 1| and vanishes on indices of probability
+   zero as long as the shortfall is below one cell (1/n). *)
+Lemma alias_mass_master : forall p, p <> [] -> nonneg p ->
   let '(prob, alias) := vose_fix p in
   length prob = length p /\ length alias = length p /\
   Forall (fun a => (a < length p)%nat) alias /\
-  forall i, (i < length p)%nat -> alias_mass prob alias i == nthq p i.
+  forall i, (i < length p)%nat -> exists e,
+    alias_mass prob alias i == nthq p i + e /\
+    (forall d, - d <= qsum p - 1 -> qsum p - 1 <= d -> - d <= e /\ e <= d) /\
+    (nthq p i == 0 -> - (1 / qn (length p)) < qsum p - 1 -> e == 0).
 Proof.
-  intros p Hne Hd. unfold vose_fix.
-  pose proof (inv_init p Hne Hd) as H0. cbv zeta in H0.
+  intros p Hne Hnn. unfold vose_fix.
+  pose proof (inv_init p Hne Hnn) as H0. cbv zeta in H0.
   change (inject_Z (Z.of_nat (length p))) with (qn (length p)).
   set (n := length p) in *. set (avg := 1 / qn n) in *.
   destruct (vose_split p avg 0 [] []) as [small0 large0]. destruct H0 as [I0 Hfuel].
@@ -436,25 +451,28 @@ Proof.
   assert (Hn0 : (0 < n)%nat) by (unfold n; destruct p; [congruence| cbn; lia]).
   pose proof (qn_pos n Hn0) as Hqn.
   assert (Hna : qn n * avg == 1) by (unfold avg; field; lra).
-  destruct I as [Hlp Hla Hnd Hlt Hsm Hlg Hp0 Hfin Hacct Htot].
+  assert (Havg : 0 < avg) by (unfold avg; apply Qlt_shift_div_l; lra).
+  destruct I as [Hlp Hla Hnd Hlt Hsm Hlg Hp0 Hfin Hacct Htot Hkeep Hlgp].
   set (W := small ++ large) in *.
-  (* every entry left in a worklist holds exactly avg *)
-  assert (HW : forall j, In j W -> nthq prob j == avg).
+  set (f := fun j => if memb j W then nthq prob j - avg else 0) in *.
+  (* what the entries left in a worklist hold, relative to avg *)
+  assert (HW : forall j, In j W ->
+            (forall d, - d <= qsum p - 1 -> qsum p - 1 <= d -> - d <= avg - nthq prob j /\ avg - nthq prob j <= d) /\
+            (nthq prob j == 0 -> - avg < qsum p - 1 -> False)).
   { intros j Hj. pose proof (Hlt j Hj) as Hjn.
-    set (f := fun j => if memb j W then nthq prob j - avg else 0) in *.
     assert (Hfj : f j = nthq prob j - avg) by (unfold f; apply memb_iff in Hj; rewrite Hj; reflexivity).
     destruct Hend as [-> | ->].
-    - (* only large entries: all terms >= 0 *)
-      assert (Hge : forall k, (k < n)%nat -> 0 <= f k).
+    - assert (Hge : forall k, (k < n)%nat -> 0 <= f k).
       { intros k Hk. unfold f. destruct (memb k W) eqn:E; [| lra]. apply memb_iff in E.
         pose proof (Hlg k E). lra. }
       pose proof (sumn_ge_term n f j Hge Hjn) as Hle. rewrite Htot, Hfj in Hle.
-      pose proof (Hlg j Hj). lra.
+      pose proof (Hlg j Hj) as Hjl. split; [intros d D1 D2; split; lra| intros Z _; lra].
     - assert (Hle0 : forall k, (k < n)%nat -> f k <= 0).
       { intros k Hk. unfold f. destruct (memb k W) eqn:E; [| lra]. apply memb_iff in E.
         unfold W in E. rewrite app_nil_r in E. pose proof (Hsm k E). lra. }
       pose proof (sumn_le_term n f j Hle0 Hjn) as Hle. rewrite Htot, Hfj in Hle.
-      unfold W in Hj. rewrite app_nil_r in Hj. pose proof (Hsm j Hj). lra. }
+      unfold W in Hj. rewrite app_nil_r in Hj. pose proof (Hsm j Hj) as Hjs.
+      split; [intros d D1 D2; split; lra| intros Z D; lra]. }
   (* finishing: large first, then small *)
   assert (Hb1 : forall j, In j large -> (j < length prob)%nat /\ (j < length alias)%nat)
     by (intros j Hj; rewrite Hlp, Hla; split; apply Hlt; apply in_or_app; right; exact Hj).
@@ -478,29 +496,75 @@ Proof.
   split; [rewrite map_length; exact Hl2| split; [exact Hl2'| split]].
   - apply Forall_forall. intros a Ha. destruct (In_nth alias2 a O Ha) as [j [Hj <-]]. rewrite Hl2' in Hj.
     rewrite A. destruct (memb j W) eqn:E; [exact Hj|]. apply memb_false_iff in E. apply (Hfin j Hj E).
-  - intros i Hi. unfold alias_mass. rewrite map_length, Hl2. fold (qn n).
-    rewrite <- (Hacct i Hi). unfold acct. fold (sumn n (fun j => cell_len (map (fun q => q * qn n) prob2) alias2 j i)).
-    (* per cell *)
-    assert (Hcell : forall j, (j < n)%nat ->
-              cell_len (map (fun q => q * qn n) prob2) alias2 j i ==
-              (if (j =? i)%nat then (if memb i W then 1 else 0) else 0) +
-              qn n * (if memb j W then 0 else contrib avg prob alias j i)).
-    { intros j Hj. unfold cell_len. rewrite nthq_map_scale by lia. rewrite P, A.
-      destruct (memb j W) eqn:E; cbv iota.
-      - assert (H1n : 1 <= 1 * qn n).
-        { assert (1 <= qn n); [| lra]. unfold qn. change 1 with (inject_Z 1). rewrite <- Zle_Qle. lia. }
-        pose proof (clamp01_top _ H1n) as Hc.
-        destruct (Nat.eqb_spec j i) as [->|Hji]; [rewrite E|]; lra.
-      - assert (E' := E). apply memb_false_iff in E'. destruct (Hfin j Hj E') as [Hle _]. pose proof (Hp0 j Hj) as Hge.
-        assert (Hc0 : 0 <= nthq prob j * qn n) by nra.
-        assert (Hc1 : nthq prob j * qn n <= 1) by nra.
-        pose proof (clamp01_id _ Hc0 Hc1) as Hc. unfold contrib.
-        destruct (Nat.eqb_spec j i) as [->|Hji].
-        + rewrite E. destruct (nth i alias O =? i)%nat; nra.
-        + destruct (nth j alias O =? i)%nat; nra. }
-    rewrite (sumn_ext n _ _ Hcell), sumn_add, sumn_scale, sumn_point by exact Hi.
-    destruct (memb i W) eqn:E.
-    + apply memb_iff in E. rewrite (HW i E). field_simplify_eq; [| lra].
-      unfold avg. field. lra.
-    + field. lra.
+  - intros i Hi.
+    exists (if memb i W then avg - nthq prob i else 0).
+    split; [| split].
+    + unfold alias_mass. rewrite map_length, Hl2. fold (qn n).
+      rewrite <- (Hacct i Hi). unfold acct. fold (sumn n (fun j => cell_len (map (fun q => q * qn n) prob2) alias2 j i)).
+      assert (Hcell : forall j, (j < n)%nat ->
+                cell_len (map (fun q => q * qn n) prob2) alias2 j i ==
+                (if (j =? i)%nat then (if memb i W then 1 else 0) else 0) +
+                qn n * (if memb j W then 0 else contrib avg prob alias j i)).
+      { intros j Hj. unfold cell_len. rewrite nthq_map_scale by lia. rewrite P, A.
+        destruct (memb j W) eqn:E; cbv iota.
+        - assert (H1n : 1 <= 1 * qn n).
+          { assert (1 <= qn n); [| lra]. unfold qn. change 1 with (inject_Z 1). rewrite <- Zle_Qle. lia. }
+          pose proof (clamp01_top _ H1n) as Hc.
+          destruct (Nat.eqb_spec j i) as [->|Hji]; [rewrite E|]; lra.
+        - assert (E' := E). apply memb_false_iff in E'. destruct (Hfin j Hj E') as [Hle _]. pose proof (Hp0 j Hj) as Hge.
+          assert (Hc0 : 0 <= nthq prob j * qn n) by nra.
+          assert (Hc1 : nthq prob j * qn n <= 1) by nra.
+          pose proof (clamp01_id _ Hc0 Hc1) as Hc. unfold contrib.
+          destruct (Nat.eqb_spec j i) as [->|Hji].
+          + rewrite E. destruct (nth i alias O =? i)%nat; nra.
+          + destruct (nth j alias O =? i)%nat; nra. }
+      rewrite (sumn_ext n _ _ Hcell), sumn_add, sumn_scale, sumn_point by exact Hi.
+      destruct (memb i W) eqn:E.
+      * field_simplify_eq; [| lra]. unfold avg. field. lra.
+      * field. lra.
+    + intros d D1 D2. destruct (memb i W) eqn:E; [| lra].
+      apply memb_iff in E. apply (proj1 (HW i E)); assumption.
+    + intros Z D. destruct (memb i W) eqn:E; [| reflexivity]. exfalso.
+      apply memb_iff in E. apply (proj2 (HW i E)); [| exact D].
+      rewrite (Hkeep i Hi); [exact Z| lra].
+Qed.
+
+(* exact masses when the vector sums to one *)
+Lemma alias_mass_lemma : forall p, p <> [] -> is_dist p ->
+  let '(prob, alias) := vose_fix p in
+  length prob = length p /\ length alias = length p /\
+  Forall (fun a => (a < length p)%nat) alias /\
+  forall i, (i < length p)%nat -> alias_mass prob alias i == nthq p i.
+Proof.
+  intros p Hne [Hnn Hs]. pose proof (alias_mass_master p Hne Hnn) as H.
+  destruct (vose_fix p) as [prob alias]. destruct H as [H1 [H2 [H3 H4]]].
+  split; [exact H1| split; [exact H2| split; [exact H3|]]].
+  intros i Hi. destruct (H4 i Hi) as [e [He [Hb _]]].
+  destruct (Hb 0) as [L U]; [lra| lra|]. rewrite He. lra.
+Qed.
+
+(* any vector isProbability accepts: masses within |sum p - 1| of p_i, and an index of probability
+   zero keeps mass zero (the shortfall, at most 1e-6, is below one cell for n < 10^6) *)
+Lemma alias_mass_slack_lemma : forall p d, p <> [] -> nonneg p -> - d <= qsum p - 1 -> qsum p - 1 <= d ->
+  let '(prob, alias) := vose_fix p in
+  length prob = length p /\ length alias = length p /\
+  Forall (fun a => (a < length p)%nat) alias /\
+  forall i, (i < length p)%nat ->
+    - d <= alias_mass prob alias i - nthq p i /\ alias_mass prob alias i - nthq p i <= d.
+Proof.
+  intros p d Hne Hnn D1 D2. pose proof (alias_mass_master p Hne Hnn) as H.
+  destruct (vose_fix p) as [prob alias]. destruct H as [H1 [H2 [H3 H4]]].
+  split; [exact H1| split; [exact H2| split; [exact H3|]]].
+  intros i Hi. destruct (H4 i Hi) as [e [He [Hb _]]].
+  destruct (Hb d D1 D2) as [L U]. rewrite He. split; lra.
+Qed.
+
+Lemma alias_support_lemma : forall p, p <> [] -> nonneg p -> - (1 / qn (length p)) < qsum p - 1 ->
+  let '(prob, alias) := vose_fix p in
+  forall i, (i < length p)%nat -> nthq p i == 0 -> alias_mass prob alias i == 0.
+Proof.
+  intros p Hne Hnn D. pose proof (alias_mass_master p Hne Hnn) as H.
+  destruct (vose_fix p) as [prob alias]. destruct H as [_ [_ [_ H4]]].
+  intros i Hi Z. destruct (H4 i Hi) as [e [He [_ Hz]]].
+  rewrite He, (Hz Z D), Z. lra.
 Qed.
